@@ -2166,7 +2166,11 @@ insert_list:
             if (u->flags & VCPU_ENABLE_PASSIVE_WORK_STEALING) {
                 thread* th;
                 if ((th = ws_scan_standbyq(vcpu, u)) || (th = ws_scan_runq(vcpu, u))) {
+                    // other stealers scan this run queue only while holding
+                    // vcpu_list_lock, which we hold: this cannot wait
+                    vcpu->runq_lock.foreground_lock();
                     vcpu->idle_worker->insert_list_tail(th);
+                    vcpu->runq_lock.foreground_unlock();
                     return true;
                 }
             }
@@ -2174,13 +2178,19 @@ insert_list:
         }
         return false;
     }
+    // the run-queue lock must be released before try_work_stealing(): a stealer
+    // holds vcpu_list_lock while it waits for its victim's run-queue lock, and
+    // an idle victim that is about to steal waits for vcpu_list_lock
+    static inline bool runq_single(const RunQ& rq) {
+        return AtomicRunQ(rq).single();
+    }
     static void* idler(void*) {
         RunQ rq;
         auto last_idle = now;
         auto vcpu = rq.current->get_vcpu();
         while (vcpu->state != states::DONE) {
             while (unlikely(resume_threads_inlined(vcpu, rq) > 0) ||
-                   likely(!AtomicRunQ(rq).single())   ||
+                   likely(!runq_single(rq))   ||
                    likely(try_work_stealing(vcpu))) {
                 thread_yield();
                 if (vcpu->state == states::DONE)
